@@ -413,7 +413,10 @@ func (b *Builder) findRegistryPackageSource(ctx context.Context, sourceAddr sour
 
 		var versionDeprecation *ModulePackageVersionDeprecation
 		for _, v := range availablePackageInfos {
-			if selectedVersion.Same(v.Version) {
+			// Compare exactly: Same ignores build metadata, so of two listed
+			// versions that differ only there ("1.0.0+linux", "1.0.0+darwin")
+			// the first one's deprecation was recorded for the selected one.
+			if selectedVersion == v.Version {
 				versionDeprecation = v.Deprecation
 				break
 			}
